@@ -19,7 +19,7 @@ seeds                             ok <s>,<s>,…            GetSeeds::seeds()
 key <key>                         ok          fresh `Seeded` around an account with that key
 vseeds | vbump <b>                ok | err:<class> | panic
 access                            ok bump=<b> vals=<v>,… | panic
-signer                            ok <s>,<s>,… | panic    (current-program mode only)
+signer                            ok <flat> -> <key>|err:<class> | panic    (current-program mode only)
 cfind pK | ccreate pK <b>         ok <key> [<bump>] | err:<class> | panic
 ```
 -/
@@ -254,12 +254,20 @@ def step (st : St) (toks : List String) : St × String :=
       | none => (st, "panic")
     | none => bad st
   | ["signer"] =>
-    match st.seeded, st.mode with
-    | some sd, some none =>
+    match st.seeded, st.mode, seedProg st with
+    | some sd, some none, some P =>
       match signerSeeds sd with
-      | some ss => (st, "ok " ++ showSeeds ss)
+      | some ss =>
+        -- printed in the form the property speaks about: the bytes that get hashed and the address
+        -- they recreate (how the bytes are split into slots only matters through the limits)
+        let H := tableH st.table
+        if complete st.table (createQueries ss P) then
+          match create H ss P with
+          | .ok k => (st, s!"ok {toHex ss.flatten} -> {toHex k}")
+          | .error e => (st, s!"ok {toHex ss.flatten} -> {showErr e}")
+        else bad st
       | none => (st, "panic")
-    | _, _ => bad st
+    | _, _, _ => bad st
   | ["cfind", p] =>
     match st.vals, parseProgSel p with
     | some S, some k =>
